@@ -195,6 +195,7 @@ type c17Case struct {
 	Specs    []*vgSpec  `json:"specs,omitempty"`
 	GI       *vgGISpec  `json:"gi,omitempty"`
 	SP       *vgSPSpec  `json:"sp,omitempty"`
+	EC       *vgECSpec  `json:"ec,omitempty"`
 	Layout   *c17Layout `json:"layout,omitempty"`
 	X        int        `json:"x,omitempty"`
 	Ref      string     `json:"ref,omitempty"`
@@ -873,6 +874,8 @@ func TestVerifC17(t *testing.T) {
 			c17Variants(res, st, &cs)
 		case "ordersp":
 			c17OrderDecls(res, st, cs.SP.Key(), cs.SP.Decls(), c17Case{Part: "ordersp", SP: cs.SP}, cs.Layout)
+		case "orderec":
+			c17OrderDecls(res, st, cs.EC.Key(), cs.EC.Decls(), c17Case{Part: "orderec", EC: cs.EC}, cs.Layout)
 		case "repeatgi":
 			c17RepeatGI(res, st, cs.GI, 16)
 		}
@@ -941,6 +944,30 @@ func TestVerifC17(t *testing.T) {
 		}
 		wg.Wait()
 		res.Count("same_print_interface_family_packages", spDone.Load())
+		// (f) struct-embedding cycles, in every order of declarations and files
+		ecs := vgECEnumerate()
+		next.Store(0)
+		var ecDone atomic.Int64
+		for w := 0; w < runtime.GOMAXPROCS(0); w++ {
+			wg.Add(1)
+			go func() {
+				defer wg.Done()
+				for {
+					i := int(next.Add(1)) - 1
+					if i >= len(ecs) {
+						return
+					}
+					if res.Expired() {
+						res.NotExhaustive("time budget reached in part (f)")
+						return
+					}
+					c17OrderDecls(res, st, ecs[i].Key(), ecs[i].Decls(), c17Case{Part: "orderec", EC: ecs[i]}, nil)
+					ecDone.Add(1)
+				}
+			}()
+		}
+		wg.Wait()
+		res.Count("embedding_cycle_family_packages", ecDone.Load())
 		res.Sample(map[string]any{"part": "order, interfaces with identical printed form", "key": sps[len(sps)/3].Key(), "source": vgFileText("p", sps[len(sps)/3].Decls())})
 	}
 	b := c17Bounds()
